@@ -159,6 +159,37 @@ impl E {
     }
 }
 
+/// the model's word for an atom token (same as `tok_word` on what the lexer makes of `atom_text`)
+pub fn atom_word(a: &Atom) -> String {
+    match a {
+        Atom::Ident(s) => format!("id:{s}"),
+        Atom::Int(n) => format!("i:{n}"),
+        Atom::Float(s) => format!("f:{s}"),
+        Atom::Str(s) => format!("s:{}", vh::hex(s.as_bytes()).replace('-', "")),
+        Atom::Bool(b) => format!("{b}"),
+        Atom::Nil => "nil".into(),
+    }
+}
+
+impl E {
+    /// prefix notation read by the Lean driver's `prattprint`
+    pub fn prefix_words(&self, out: &mut Vec<String>) {
+        match self {
+            E::Atom(a) => { out.push("atom".into()); out.push(atom_word(a)); }
+            E::Neg(e) => { out.push("neg".into()); e.prefix_words(out); }
+            E::Not(e) => { out.push("not".into()); e.prefix_words(out); }
+            E::Unwrap(e) => { out.push("unwrap".into()); e.prefix_words(out); }
+            E::Try(e) => { out.push("try".into()); e.prefix_words(out); }
+            E::Bin(o, l, r) => { out.push("bin".into()); out.push(o.name().into()); l.prefix_words(out); r.prefix_words(out); }
+            E::Index(e, i) => { out.push("index".into()); e.prefix_words(out); i.prefix_words(out); }
+            E::Member(e, s) => { out.push("member".into()); e.prefix_words(out); out.push(s.clone()); }
+            E::Call(f, a) => { out.push("call".into()); out.push(format!("{}", a.len())); f.prefix_words(out); for x in a { x.prefix_words(out); } }
+            E::Tuple(a) => { out.push("tuple".into()); out.push(format!("{}", a.len())); for x in a { x.prefix_words(out); } }
+            E::Array(a) => { out.push("array".into()); out.push(format!("{}", a.len())); for x in a { x.prefix_words(out); } }
+        }
+    }
+}
+
 pub fn atom_text(a: &Atom) -> String {
     match a {
         Atom::Ident(s) => s.clone(),
